@@ -411,6 +411,10 @@ class GrownHistoryStream(HistoryStream):
                 continue
             wrote = bool(rec["changed"])
             renders = step.get("tmpl", "default") in G.RENDERS_CONTRIBUTORS
+            if st["target_after"] != st["target"]:
+                # this step made lint read another place (a fresh FILE.license): what the old place holds is not lost from a
+                # file, the place changed (see the assumptions); the ground truth starts again with this step
+                stated, cons = {}, set()
             if wrote or not step.get("skip_existing"):
                 if case.get("family") == "merge":
                     for h in step.get("cpr", []):
